@@ -3339,7 +3339,11 @@ class MainProvider(ResolverMixin, BaseProvider):
 
         # Issue #2064 implement execquery
         # pylint: disable=assignment-from-no-return
-        instances = self.ExecQuery(namespace, FilterQueryLanguage, FilterQuery)
+        # The enumeration session removes the delivered instances from its
+        # list, so it needs a list of its own and not the object a user
+        # defined ExecQuery() returned (and may have kept).
+        instances = list(
+            self.ExecQuery(namespace, FilterQueryLanguage, FilterQuery))
 
         if ReturnQueryResultClass:
             m = re.search(r' FROM +([^ \(\)\[\]"\'\-\.\*\+]+)', FilterQuery)
